@@ -714,113 +714,139 @@ func ruleSelect(c *Ctx) {
 		c.Undecided("SELECT", "anchor:MakeCipherEntry", "-", "MakeCipherEntry not found")
 		return
 	}
-	// the selecting condition, wherever it lives in MakeCipherEntry's helpers: (SaltSize(key) [- k]) <op> const
+	// The decision table, by constant propagation: with the key's SaltSize() fixed to s, which of the two generator
+	// events — the creation of a marking generator, the load of the plain random generator — can MakeCipherEntry reach?
+	// Exactly the marking one for s >= 20 and exactly the plain one below, for every s a cipher could have (1..64) and in
+	// particular for the SDK's specs. Independent of how the selection is written (a comparison, an enum, a switch …).
 	reg := c.NewRegion(mk, 3, func(h *ssa.Function) bool { return eng.PkgPathOf(h) != eng.Mod+"/service" })
-	isSaltSize := func(v ssa.Value) bool {
-		cc, _, ok := eng.AsResult(v)
-		return ok && eng.CalleeName(&cc.Call) == "(*sdk/shadowsocks.EncryptionKey).SaltSize"
+	type event struct {
+		at     ssa.Instruction
+		marked bool
 	}
-	var sel *ssa.If
-	thr := int64(-1)
-	markedOnTrue := true
+	var events []event
 	for _, f := range reg.Fns {
 		for _, b := range f.Blocks {
-			iff, ok := b.Instrs[len(b.Instrs)-1].(*ssa.If)
-			if !ok {
-				continue
-			}
-			bo, ok := iff.Cond.(*ssa.BinOp)
-			if !ok {
-				continue
-			}
-			rhs, ok := eng.ConstInt(bo.Y)
-			if !ok {
-				continue
-			}
-			lhs := bo.X
-			off := int64(0)
-			if sub, ok := lhs.(*ssa.BinOp); ok && sub.Op == token.SUB {
-				if k, ok := eng.ConstInt(sub.Y); ok {
-					off = k
-					lhs = sub.X
+			for _, ins := range b.Instrs {
+				switch x := ins.(type) {
+				case *ssa.Call:
+					if eng.CalleeName(&x.Call) == "service.NewServerSaltGenerator" {
+						events = append(events, event{x, true})
+					}
+				case *ssa.UnOp:
+					if g, ok := x.X.(*ssa.Global); ok && x.Op == token.MUL && g.Name() == "RandomServerSaltGenerator" {
+						events = append(events, event{x, false})
+					}
 				}
 			}
-			if g, _ := p.AllFrom(lhs, deepF, isSaltSize); !g {
-				continue
-			}
-			switch bo.Op {
-			case token.GEQ:
-				sel, thr, markedOnTrue = iff, rhs+off, true
-			case token.GTR:
-				sel, thr, markedOnTrue = iff, rhs+off+1, true
-			case token.LSS:
-				sel, thr, markedOnTrue = iff, rhs+off, false
-			case token.LEQ:
-				sel, thr, markedOnTrue = iff, rhs+off+1, false
-			}
 		}
 	}
-	if sel == nil {
-		c.Check("SELECT", short(mk)+":selects-on-salt-size", p.Pos(mk.Pos()), false, "MakeCipherEntry does not select the salt generator by comparing the key's salt size with a constant threshold")
+	nM, nR := 0, 0
+	for _, e := range events {
+		if e.marked {
+			nM++
+		} else {
+			nR++
+		}
+	}
+	if nM == 0 || nR == 0 {
+		c.Check("SELECT", short(mk)+":selects-on-salt-size", p.Pos(mk.Pos()), false, "MakeCipherEntry does not choose between the marking generator and the plain random generator")
 		return
 	}
-	c.CheckAt("SELECT", short(mk)+":threshold-is-20", sel, thr == 20, fmt.Sprintf("the marking generator is selected for salt sizes >= %d, not >= 20", thr))
-	// the decision as the code takes it, for every cipher the SDK offers
-	for _, s := range specs {
-		marked := s.SaltSize >= thr
-		c.Check("SELECT", "spec:"+s.Name, s.Pos, marked == (s.SaltSize >= 20), fmt.Sprintf("salt=%d: marked=%v||with the selection threshold %d the cipher spec %s (salt %d) is marked=%v but the property requires marking exactly for salts of at least 20 bytes", s.SaltSize, marked, thr, s.Name, s.SaltSize, marked))
-	}
-	// which generator on which edge: every origin of the entry's SaltGenerator is the marking generator created behind the
-	// ">= threshold" edge or the plain random generator loaded behind the other edge
-	sf := sel.Parent()
-	mEdge := eng.Edge{From: sel.Block(), To: sel.Block().Succs[0]}
-	rEdge := eng.Edge{From: sel.Block(), To: sel.Block().Succs[1]}
-	if !markedOnTrue {
-		mEdge, rEdge = rEdge, mEdge
-	}
-	var genVal ssa.Value
+	// what the entry's generator field receives derives only from those two
 	for _, st := range p.FieldStores("service.CipherEntry", "SaltGenerator") {
-		if st.Fn == mk && st.Val != nil {
-			genVal = st.Val
+		if st.Fn != mk || st.Val == nil {
+			continue
 		}
-	}
-	okSel, nM, nR := genVal != nil, 0, 0
-	why := ""
-	if genVal != nil {
 		oo := deepF
 		oo.Stop = func(v ssa.Value) bool {
 			cc, _, ok := eng.AsResult(v)
 			return ok && eng.CalleeName(&cc.Call) == "service.NewServerSaltGenerator"
 		}
-		for _, o := range p.Origins(genVal, oo) {
-			var at ssa.Instruction
-			marked := false
-			if cc, _, ok := eng.AsResult(o); ok && eng.CalleeName(&cc.Call) == "service.NewServerSaltGenerator" {
-				at, marked = cc, true
-			} else if u, ok := o.(*ssa.UnOp); ok {
-				if g, ok := u.X.(*ssa.Global); ok && g.Name() == "RandomServerSaltGenerator" {
-					at = u
+		okO, bad := p.AllFrom(st.Val, oo, func(o ssa.Value) bool {
+			for _, e := range events {
+				if v, isV := e.at.(ssa.Value); isV && v == o {
+					return true
 				}
 			}
-			if at == nil || at.Parent() != sf {
-				okSel = false
-				why = "an origin of the generator is neither of the two generators, or is not selected in " + short(sf) + ": " + valStr(p, o)
-				continue
+			return false
+		})
+		c.CheckAt("SELECT", short(mk)+":generator-is-one-of-the-two", st.Ins, okO, "the entry's salt generator can be something other than the marking generator or the plain random generator: "+valsStr(p, bad))
+	}
+	decide := func(s int64) (marked, plain bool) {
+		ev := &constEval{p: p}
+		ev.ext = func(call *ssa.Call) (cval, bool) {
+			if eng.CalleeName(&call.Call) == "(*sdk/shadowsocks.EncryptionKey).SaltSize" {
+				return cval{known: true, k: s}, true
 			}
-			if marked {
-				nM++
-				if !eng.Cut(sf, at.Block(), eng.EdgeSet{mEdge: true}) {
-					okSel, why = false, "the marking generator is created outside the >= threshold edge"
+			return cval{}, false
+		}
+		reached := map[*ssa.BasicBlock]bool{}
+		var run func(f *ssa.Function, env map[ssa.Value]cval, d int)
+		run = func(f *ssa.Function, env map[ssa.Value]cval, d int) {
+			r, _ := ev.walk(f, env)
+			for b := range r {
+				reached[b] = true
+				if d >= 3 {
+					continue
 				}
-			} else {
-				nR++
-				if !eng.Cut(sf, at.Block(), eng.EdgeSet{rEdge: true}) {
-					okSel, why = false, "the plain random generator is chosen outside the < threshold edge"
+				// helpers that hold an event (a chooseGenerator(saltSize, secret) function): follow them with the
+				// constant arguments known at the call
+				for _, ins := range b.Instrs {
+					call, ok := ins.(*ssa.Call)
+					if !ok {
+						continue
+					}
+					h := call.Call.StaticCallee()
+					if h == nil || !reg.In[h] || h == f {
+						continue
+					}
+					henv := map[ssa.Value]cval{}
+					for i, pa := range h.Params {
+						if i < len(call.Call.Args) {
+							if cv := ev.value(call.Call.Args[i], env, 0); cv.known {
+								henv[pa] = cv
+							}
+						}
+					}
+					run(h, henv, d+1)
 				}
 			}
 		}
+		run(mk, map[ssa.Value]cval{}, 0)
+		for _, e := range events {
+			if reached[e.at.Block()] {
+				if e.marked {
+					marked = true
+				} else {
+					plain = true
+				}
+			}
+		}
+		return
 	}
-	c.CheckAt("SELECT", short(mk)+":marked-iff-threshold", sel, okSel && nM > 0 && nR > 0, "the entry's salt generator is not (marking generator on the >= threshold edge, plain random generator on the other edge): "+why)
+	thr := int64(-1)
+	okTable, why := true, ""
+	for s := int64(1); s <= 64; s++ {
+		mkd, pln := decide(s)
+		if mkd && thr < 0 {
+			thr = s
+		}
+		want := s >= 20
+		if mkd == pln {
+			okTable, why = false, fmt.Sprintf("for a salt of %d bytes the choice is not decided by the salt size (marking reachable: %v, plain reachable: %v)", s, mkd, pln)
+			break
+		}
+		if mkd != want {
+			okTable, why = false, fmt.Sprintf("a salt of %d bytes gets marked=%v", s, mkd)
+			break
+		}
+	}
+	c.Check("SELECT", short(mk)+":marked-iff-salt-at-least-20", p.Pos(mk.Pos()), okTable, "the marking generator is not selected exactly for salt sizes >= 20: "+why)
+	c.Check("SELECT", short(mk)+":threshold-is-20", p.Pos(mk.Pos()), thr == 20, fmt.Sprintf("the marking generator is selected for salt sizes >= %d, not >= 20", thr))
+	for _, s := range specs {
+		mkd, pln := decide(s.SaltSize)
+		c.Check("SELECT", "spec:"+s.Name, s.Pos, mkd != pln && mkd == (s.SaltSize >= 20), fmt.Sprintf("salt=%d: marked=%v||the cipher spec %s (salt %d) gets marked=%v (plain=%v) but the property requires marking exactly for salts of at least 20 bytes", s.SaltSize, mkd, s.Name, s.SaltSize, mkd, pln))
+	}
 	// the marking generator is keyed by this entry's secret
 	for _, call := range reg.FindCalls(func(n string, _ *ssa.Call) bool { return n == "service.NewServerSaltGenerator" }) {
 		okS, _ := p.AllFrom(call.Call.Args[0], deepF, func(v ssa.Value) bool {
